@@ -411,7 +411,7 @@ func vLemmaRangeRead(index []uint64, owner *Collection) {
 // QueryAt (C10, C18): the callback runs with the cursor on the requested row and the read latch of that row's block
 // held; the latch is released on return and the callback's error is returned.
 //
-//@ lemma props=C10,C18
+//@ lemma props=C10,C18 real=column.(*Txn).QueryAt
 func vLemmaQueryAt(owner *Collection, index uint32, errIn error) {
 	vAssume(owner != nil && owner.slock != nil && vNothingHeld())
 	txn := &Txn{owner: owner}
